@@ -213,6 +213,9 @@ type Case struct {
 	// 2 = 1..1500 bytes per Read (network-like), 3 = 1..64 bytes per Read; sizes drawn from a PRNG seeded with SegSeed
 	SegMode int   `json:"seg_mode"`
 	SegSeed int64 `json:"seg_seed"`
+	// TZ: the zone of the writer PROCESS while this request is parsed and its blocks are built, in seconds east of UTC (time.Local = FixedZone;
+	// 0 = UTC): what time.Unix / time.Now hand out, and what ch-go's ColDate.Append adds before dividing by 86400. Absent in older cases = UTC.
+	TZ int `json:"tz"`
 	BodyLen int   `json:"body_len"`
 	Reads   int   `json:"reads"`    // Read calls that returned data
 	SegHead []int `json:"seg_head"` // sizes of the first 24 of them
@@ -1194,6 +1197,13 @@ func run(c *Case, silence bool) {
 		panic("fmt " + c.Fmt)
 	}
 	c.Err, c.ErrMsg, c.Spans, c.Tags, c.Read, c.ReadAll, c.Panic, c.RetryDiff = false, "", []TRow{}, []ARow{}, []RSpan{}, 0, "", ""
+	// the writer process's zone for this request (parsers, onSpan, insert services, ch-go columns all run under it)
+	if c.TZ != 0 {
+		time.Local = time.FixedZone("verif", c.TZ)
+	} else {
+		time.Local = time.UTC
+	}
+	defer func() { time.Local = time.UTC }()
 	c.JSONDiff, c.JSONRows, c.JSONSkipped, c.JSONKnown = "", 0, 0, nil
 	// the parser gets its own copy of the body (what it retains must not alias our buffers) delivered in segments
 	sr := &segReader{b: append([]byte{}, body...), r: hx.Rand(c.SegSeed), mode: c.SegMode}
@@ -1512,6 +1522,51 @@ func genID(r *rand.Rand, n int) string {
 
 const nowNs = uint64(1727700000000000000)
 
+// ---- process zone and the time of day of the generated spans (from a PRNG of their own, seeded by the case: the main stream is not disturbed)
+// zones: the offsets a writer can run under (whole hours both sides, the half / quarter hour zones, the extremes -12:00 and +14:00)
+var zoneOffsets = []int{-5 * 3600, 9 * 3600, -12 * 3600, 14 * 3600, 5*3600 + 1800, -(3*3600 + 1800), 5*3600 + 2700, -8 * 3600, 3600, -3600,
+	12*3600 + 2700, -(9*3600 + 1800), 2 * 3600, -10 * 3600, 1800, -900}
+
+const midnightNs = uint64(1727740800) * 1000000000 // 2024-10-01T00:00:00Z, the UTC midnight after nowNs
+
+// spanBaseNs: where the ordinary span times of the case being generated start (OTLP: + up to 1000 s; Zipkin: the same in microseconds);
+// zr: the side PRNG of the case (nil outside gen)
+var spanBaseNs = nowNs
+var zr *rand.Rand
+var genTZ int
+
+func genZone(c *Case) {
+	zr = rand.New(rand.NewSource(c.SegSeed ^ 0x7a6f6e65))
+	spanBaseNs = nowNs
+	if zr.Intn(10) < 3 {
+		c.TZ = 0
+	} else if zr.Intn(2) == 0 {
+		c.TZ = zoneOffsets[zr.Intn(3)] // UTC-5, UTC+9, UTC-12 most often
+	} else {
+		c.TZ = zoneOffsets[zr.Intn(len(zoneOffsets))]
+	}
+	genTZ = c.TZ
+	switch k := zr.Intn(10); {
+	case k < 3: // around 12:40Z, as before
+	case k < 7: // the 1000 s window straddles UTC midnight: the spans before it are on another LOCAL day east of UTC, those after it west of UTC
+		spanBaseNs = midnightNs - uint64(zr.Intn(1000))*1000000000
+	default: // the window straddles the writer's LOCAL midnight (UTC midnight - offset)
+		spanBaseNs = uint64(int64(midnightNs) - int64(c.TZ)*1000000000 - int64(zr.Intn(1000))*1000000000)
+	}
+}
+
+// edgeNs: one ordinary span time in eight is snapped to the second / nanosecond around UTC midnight or around the writer's local midnight
+func edgeNs(t uint64, tz int) uint64 {
+	if zr == nil || zr.Intn(8) != 0 {
+		return t
+	}
+	m := int64(midnightNs)
+	if zr.Intn(3) == 0 {
+		m -= int64(tz) * 1000000000
+	}
+	return uint64(m + []int64{-1000000000, -1, 0, 1, 999999999, 1000000000, -1000000001}[zr.Intn(7)])
+}
+
 func genOtlp(r *rand.Rand, c *Case, depth int) {
 	c.Fmt = "otlp"
 	cls := r.Intn(100)
@@ -1590,7 +1645,7 @@ func genOtlp(r *rand.Rand, c *Case, depth int) {
 				case 3:
 					sp.Start, sp.End = ^uint64(0), ^uint64(0)
 				default:
-					sp.Start = nowNs + uint64(r.Int63n(1e12))
+					sp.Start = edgeNs(spanBaseNs+uint64(r.Int63n(1e12)), c.TZ)
 					sp.End = sp.Start + uint64(r.Int63n(5e9))
 				}
 				if plain {
@@ -1830,6 +1885,9 @@ func genTime(r *rand.Rand, base int64) JV {
 		v = -int64(r.Intn(100000))
 	default:
 		v = base + r.Int63n(1e9)
+		if base > 1 { // a timestamp (durations have base 1)
+			v = int64(edgeNs(uint64(v)*1000, genTZ) / 1000)
+		}
 	}
 	if v == 0 && r.Intn(2) == 0 {
 		return JV{T: "n", S: "-0"} // an integer literal: the value 0
@@ -1882,7 +1940,7 @@ func genZSpan(r *rand.Rand, malformed bool, strict bool) JV {
 		fs = append(fs, f("name", js(genZStr(r))))
 	}
 	if r.Intn(10) != 0 {
-		fs = append(fs, f("timestamp", genTime(r, 1727700000000000)))
+		fs = append(fs, f("timestamp", genTime(r, int64(spanBaseNs/1000))))
 	}
 	if r.Intn(10) != 0 {
 		fs = append(fs, f("duration", genTime(r, 1)))
@@ -2196,9 +2254,13 @@ func gen(r *rand.Rand, id int, depth int) Case {
 	default:
 		c.SegMode = 3
 	}
+	genZone(&c)
 	sid := id
 	if skipIDs[id] { // the quick tier leaves some of the large fixed requests to the thorough tier (SPANS_SKIP)
 		sid = -1
+	}
+	if sid >= 7 && sid <= 23 { // the large fixed requests keep their times (their sizes are tuned); they run under the zone drawn above
+		spanBaseNs, zr = nowNs, nil
 	}
 	switch sid {
 	case 7:
